@@ -94,3 +94,118 @@ Qed.
 
 Lemma sunion_all_spec : forall held x, In x (sunion_all held) <-> exists c, In c held /\ In x (sc_ids c).
 Proof. intros held x. unfold sunion_all. rewrite In_nsort, in_flat_map. tauto. Qed.
+
+(* ---- the settings object driven by the sync tree (settingsObject.Update / Rebuild / Init) *)
+
+(* the ids deleted by the records of [held] *)
+Definition ids_of (held : list schange) (x : N) : Prop := exists c, In c held /\ In x (sc_ids c).
+
+(* What the tree guarantees to its listener when the replica's held records go from [prev] to [held] (C06):
+   Nothing - nothing new; Append - the records iterated after LastIteratedId are exactly the new ones; Rebuild / Init -
+   iteration from the root covers everything held: either from the true root, or from a snapshot record whose
+   snapshot holds exactly the ids of the record and its ancestors [anc] (what an honest author's factory writes). *)
+Inductive sev_wf (prev held : list schange) : sev -> Prop :=
+| wf_nothing : forall r a, (forall c, In c held <-> In c prev) -> sev_wf prev held (mkSEv SNothing r a)
+| wf_append : forall r new, (forall c, In c held <-> In c prev \/ In c new) -> sev_wf prev held (mkSEv SAppend r new)
+| wf_scratch_root : forall m after, m = SInit \/ m = SRebuild -> incl prev held ->
+    (forall c, In c held <-> In c after) -> sev_wf prev held (mkSEv m None after)
+| wf_scratch_snap : forall m root snap anc after, m = SInit \/ m = SRebuild -> incl prev held ->
+    sc_snap root = Some snap ->
+    (forall x, In x snap <-> In x (flat_map sc_ids (anc ++ [root]))) ->
+    (forall c, In c held <-> In c (anc ++ root :: after)) -> sev_wf prev held (mkSEv m (Some root) after).
+
+(* a sequence of listener calls, each with the held set after it *)
+Inductive chain_wf : list schange -> list (list schange * sev) -> Prop :=
+| chain_nil : forall prev, chain_wf prev []
+| chain_cons : forall prev held e rest, sev_wf prev held e -> chain_wf held rest -> chain_wf prev ((held, e) :: rest).
+
+(* kept state and ids handed to the deletion manager = the ids of the held records *)
+Definition agrees (o : sobj) (held : list schange) : Prop :=
+  (forall x, In x (so_state o) <-> ids_of held x) /\ (forall x, In x (so_seen o) <-> ids_of held x).
+
+Lemma ids_of_flat_map : forall held x, ids_of held x <-> In x (flat_map sc_ids held).
+Proof. intros held x. unfold ids_of. rewrite in_flat_map. tauto. Qed.
+
+Lemma ids_of_ext : forall a b, (forall c, In c a <-> In c b) -> forall x, ids_of a x <-> ids_of b x.
+Proof.
+  intros a b Hab x. unfold ids_of. split; intros [c [Hc Hx]]; exists c; split; auto; apply Hab; exact Hc.
+Qed.
+
+Lemma ids_of_incl : forall a b, incl a b -> forall x, ids_of a x -> ids_of b x.
+Proof. intros a b Hab x [c [Hc Hx]]. exists c. split; [apply Hab; exact Hc | exact Hx]. Qed.
+
+Lemma agrees_init : agrees sobj_init [].
+Proof.
+  split; intros x; cbn [sobj_init so_state so_seen]; (split; [intros [] | intros [c [[] _]]]).
+Qed.
+
+Lemma sobj_step_scratch : forall o m root after, m = SInit \/ m = SRebuild ->
+  sobj_step o (mkSEv m root after) =
+  mkSObj (sderive_scratch root after) (sunion (so_seen o) (sderive_scratch root after)).
+Proof. intros o m root after [-> | ->]; reflexivity. Qed.
+
+Lemma sobj_step_append : forall o r new,
+  sobj_step o (mkSEv SAppend r new) =
+  mkSObj (sderive_inc (so_state o) new) (sunion (so_seen o) (sderive_inc (so_state o) new)).
+Proof. reflexivity. Qed.
+
+Lemma sobj_step_agrees : forall o prev held e, agrees o prev -> sev_wf prev held e -> agrees (sobj_step o e) held.
+Proof.
+  intros o prev held e [Hst Hseen] Hwf.
+  destruct Hwf as [r a Hsame | r new Hnew | m after Hm Hincl Hall | m root snap anc after Hm Hincl Hsnap Hwfsnap Hall].
+  - cbn [sobj_step se_mode]. split; intros x.
+    + rewrite Hst. apply ids_of_ext. intros c. symmetry. apply Hsame.
+    + rewrite Hseen. apply ids_of_ext. intros c. symmetry. apply Hsame.
+  - rewrite sobj_step_append. unfold agrees. cbn [so_state so_seen].
+    assert (Hstate : forall x, In x (sderive_inc (so_state o) new) <-> ids_of held x).
+    { intros x. rewrite In_sderive_inc, Hst. unfold ids_of. split.
+      - intros [[c [Hc Hx]] | [c [Hc Hx]]]; exists c; split; auto; apply Hnew; auto.
+      - intros [c [Hc Hx]]. apply Hnew in Hc. destruct Hc as [Hc | Hc]; [left | right]; exists c; auto. }
+    split; intros x; [apply Hstate|].
+    rewrite In_sunion, Hseen, Hstate. split; [intros [H | H]; [|exact H] | intros H; now right].
+    apply ids_of_incl with (a := prev); [|exact H]. intros c Hc. apply Hnew. now left.
+  - rewrite (sobj_step_scratch o m None after Hm). unfold agrees. cbn [so_state so_seen].
+    assert (Hstate : forall x, In x (sderive_scratch None after) <-> ids_of held x).
+    { intros x. rewrite scratch_root_is_inc, sderive_is_union, <- ids_of_flat_map.
+      apply ids_of_ext. intros c. symmetry. apply Hall. }
+    split; intros x; [apply Hstate|].
+    rewrite In_sunion, Hseen, Hstate. split; [intros [H | H]; [|exact H] | intros H; now right].
+    apply ids_of_incl with (a := prev); assumption.
+  - rewrite (sobj_step_scratch o m (Some root) after Hm). unfold agrees. cbn [so_state so_seen].
+    assert (Hstate : forall x, In x (sderive_scratch (Some root) after) <-> ids_of held x).
+    { intros x. rewrite (scratch_from_snapshot root snap anc after Hsnap Hwfsnap), <- ids_of_flat_map.
+      apply ids_of_ext. intros c. symmetry. apply Hall. }
+    split; intros x; [apply Hstate|].
+    rewrite In_sunion, Hseen, Hstate. split; [intros [H | H]; [|exact H] | intros H; now right].
+    apply ids_of_incl with (a := prev); assumption.
+Qed.
+
+(* after ANY well-formed sequence of listener calls (any arrival order, batching, restarts) the kept state and the
+   ids handed to the deletion manager are exactly the ids of the records held at the end *)
+Theorem sobj_run_union : forall hevs prev o, agrees o prev -> chain_wf prev hevs ->
+  agrees (sobj_run o (map snd hevs)) (last (map fst hevs) prev).
+Proof.
+  induction hevs as [|[held e] rest IH]; intros prev o Hag Hch.
+  - exact Hag.
+  - inversion Hch as [|prev' held' e' rest' Hwf Hrest]; subst.
+    cbn [map snd fst sobj_run fold_left].
+    change (fold_left sobj_step (map snd rest) (sobj_step o e)) with (sobj_run (sobj_step o e) (map snd rest)).
+    assert (Hl : last (held :: map fst rest) prev = last (map fst rest) held).
+    { destruct (map fst rest) as [|h t]; [reflexivity|]. cbn [last]. clear. revert h. induction t as [|h' t IHt]; intros h; [reflexivity|]. cbn [last]. apply IHt. }
+    rewrite Hl. apply IH; [eapply sobj_step_agrees; eassumption | exact Hrest].
+Qed.
+
+(* two replicas that received the same records - in whatever order, batching, with whatever restarts - derive the same set *)
+Corollary sobj_order_free : forall h1 h2 held,
+  chain_wf [] h1 -> chain_wf [] h2 ->
+  (forall c, In c (last (map fst h1) []) <-> In c held) -> (forall c, In c (last (map fst h2) []) <-> In c held) ->
+  forall x, (In x (so_state (sobj_run sobj_init (map snd h1))) <-> In x (so_state (sobj_run sobj_init (map snd h2)))) /\
+            (In x (so_seen (sobj_run sobj_init (map snd h1))) <-> ids_of held x).
+Proof.
+  intros h1 h2 held H1 H2 E1 E2 x.
+  destruct (sobj_run_union h1 [] sobj_init agrees_init H1) as [S1 N1].
+  destruct (sobj_run_union h2 [] sobj_init agrees_init H2) as [S2 _].
+  split.
+  - rewrite S1, S2, (ids_of_ext _ _ E1), (ids_of_ext _ _ E2). tauto.
+  - rewrite N1. apply ids_of_ext. exact E1.
+Qed.
